@@ -237,11 +237,13 @@ def _run_schedule(desc, plans, schedule, roots, gated_keys=False):
     orig_fn = world.fn
 
     b = Builder(world, roots=roots) if roots else Builder(world)
+    b.ram_layers = []
     layer = b.layer(desc)
     fns = {}
+    wrapped = []
     for plan in plans:
         for field, _ in plan:
-            if field not in fns:
+            if field not in fns and field != '__clear__':
                 fns[field] = layer._compile(field)
     # wrap the memory caches
     seen = set()
@@ -258,6 +260,7 @@ def _run_schedule(desc, plans, schedule, roots, gated_keys=False):
                     c._lock = LockProxy(ctrl, f'L{len(LockProxy.registry)}')
                     raw = c._cache._t if isinstance(c._cache, TableProxy) else c._cache      # a table shared by several caches
                     c._cache = TableProxy(raw, c._lock, log, ctrl)
+                    wrapped.append((c, c._lock))
             stack.extend(n.parents)
     # gate user functions: wrap world's call log append
     real_log = world.log
@@ -277,6 +280,8 @@ def _run_schedule(desc, plans, schedule, roots, gated_keys=False):
     twin_fns = {}
     for plan in plans:
         for field, key in plan:
+            if field == '__clear__':
+                continue
             try:
                 if field not in twin_fns:
                     twin_fns[field] = twin._compile(field)
@@ -288,6 +293,15 @@ def _run_schedule(desc, plans, schedule, roots, gated_keys=False):
         threading.current_thread().cv_tid = tid
         ctrl.gate('start')
         for field, key in plans[tid]:
+            if field == '__clear__':
+                # `CacheToRam._clear()` while the other threads use the pipeline; the fresh tables are instrumented again at once
+                for l_ in b.ram_layers:
+                    l_._clear()
+                for c_, _ in wrapped:
+                    if not isinstance(c_._cache, TableProxy):
+                        c_._cache = TableProxy(c_._cache, c_._lock, log, ctrl)
+                results[tid].append({'cleared': True})
+                continue
             try:
                 arg = GKey(key) if gated_keys and isinstance(key, str) else key     # a fresh, equal object per call
                 try:
@@ -308,6 +322,11 @@ def _run_schedule(desc, plans, schedule, roots, gated_keys=False):
             t.join(timeout=2)
     finally:
         GKey.ctrl = None
+    for c_, proxy in wrapped:
+        if c_._lock is not proxy:
+            # reported through the access log: (what, thread, lock held?, table, lock)
+            log.append(('lock-replaced', None, True, 'table-of-a-cleared-cache', 'another lock object than the one the cache was created with'))
+            log.append(('lock-replaced', None, True, 'table-of-a-cleared-cache', getattr(proxy, 'name', 'L?')))
     return results, log, ok, ctrl.trace
 
 
@@ -326,7 +345,7 @@ def expected(plans, desc=None):
                         for f, k in plan])
         return out
     for plan in plans:
-        out.append([canon({'app': [f'TT.{f}', [{'app': ['TS.a', [k], [], []]}], [], []]}) for f, k in plan])
+        out.append([None if f == '__clear__' else canon({'app': [f'TT.{f}', [{'app': ['TS.a', [k], [], []]}], [], []]}) for f, k in plan])
     return out
 
 
@@ -339,6 +358,8 @@ def check_one(desc, plans, schedule, gated_keys=False):
     want = expected(plans, desc)
     for tid, (rs, ws) in enumerate(zip(results, want)):
         for r, w, call in zip(rs, ws, plans[tid]):
+            if call[0] == '__clear__':
+                continue
             if 'err' in r:
                 problems.append(f'thread {tid}: {call[0]}({call[1]!r}) raised {r["err"]}; a sequential execution never raises')
             elif r.get('hash') != r.get('seq_hash'):
@@ -389,6 +410,11 @@ def run_shard(args):
         for t in range(n_threads):
             plans.append([(rng.choice(['x', 'y'] if two else ['x']), rng.choice(keys[:3] if rng.random() < 0.7 else keys))
                           for _ in range(rng.choice([1, 2, 2]))])
+        if rng.random() < 0.3:
+            # one thread clears the RAM cache between (or before) its calls, sometimes twice
+            plan = plans[rng.randrange(n_threads)]
+            for _ in range(rng.choice([1, 2])):
+                plan.insert(rng.randrange(len(plan) + 1), ('__clear__', None))
     schedules = [list(w) for w in itertools.product(range(n_threads), repeat=depth)]
     rng.shuffle(schedules)
     schedules = schedules[:extra_random[0]]
